@@ -1,0 +1,31 @@
+//go:build verif
+
+package solo
+
+import "sync"
+
+// Verification builds only: a conformance harness can gate the block-creation loop, so that
+// "the producer runs exactly one iteration now" is a step it controls (and can wait for)
+// instead of a timing accident. With no gate installed the loop runs as in production.
+
+var (
+	verifGateMu sync.RWMutex
+	verifGate   func(c *Client)
+)
+
+// VerifSetLoopGate installs (or, with nil, removes) the function called at the top of every
+// iteration of CreateBlock; it may block.
+func VerifSetLoopGate(g func(c *Client)) {
+	verifGateMu.Lock()
+	verifGate = g
+	verifGateMu.Unlock()
+}
+
+func verifLoopTop(c *Client) {
+	verifGateMu.RLock()
+	g := verifGate
+	verifGateMu.RUnlock()
+	if g != nil {
+		g(c)
+	}
+}
